@@ -4,6 +4,18 @@ open Util
 let n = ref 0 and until_ = ref 0 and maxl = ref 100 and lazy_ = ref true and cache_ = ref true
 let gt = ref [] and groups = Hashtbl.create 16 and types = Hashtbl.create 16 and conns = ref [] and initev = ref []
 let last_tables = ref None
+(* the ties of the two regenerated closures are stated for tables in normal form (one row per simulator, in start order); here
+   the regenerated closure on the normal form is compared with the model's closure on the table as the model builds it *)
+let rec aget_l_ k l = match l with [] -> [] | (k', v) :: r -> if k = k' then v else aget_l_ k r
+let sort_rows t = List.sort compare (List.map (fun (k, row) -> (k, List.sort compare row)) (List.filter (fun (_, row) -> row <> []) t))
+let roworder_anc fuel sims t anc =
+  match ancestors_gen fuel sims (fun s -> aget_l_ s t.t_trig) with
+  | Some (Some a) -> if sort_rows a = sort_rows anc then "" else " roworder_mismatch_anc"
+  | _ -> ""
+let roworder_cycle fuel sims ind verdict =
+  let kind = function CycAccepted -> 1 | CycRejected _ -> 2 | _ -> 0 in
+  let g = cycle_check_gen fuel sims (fun s -> aget_l_ s ind) in
+  if kind g <> 0 && kind verdict <> 0 && kind g <> kind verdict then " roworder_mismatch_cycle" else ""
 let str_interval a = Printf.sprintf "%d %d %s" (int_of_nat a.ipre) (int_of_nat a.icut) (str_zlist a.itiers)
 let i_ = int_of_nat
 let dump (t : tables) (anc : anc_tab) =
@@ -39,7 +51,7 @@ let build_cmd cmd tk = match cmd with
         | Prepared (st, dt, t, anc) ->
             Sched_cmds.reset ();
             Sched_cmds.st := Some st; Sched_cmds.dt := Some dt; Sched_cmds.s := Some (init_state st); Sched_cmds.ds := Some (init_dstate dt);
-            last_tables := Some (t, anc); (if check_static sc t anc && check_static2 sc t then "ok certified" else "ok uncertified") ^ (if flat_certified st then " flat" else "") ^ (if uniform_certified st then " uniform" else "") ^ (if init_before_untilb st then " ibu" else "") ^ (if check_bound t then " bound" else "") ^ (if pull_strictb st dt then " pull" else "") ^ (if push_strictb st dt then " push" else "")
+            last_tables := Some (t, anc); let ro = roworder_anc (nat_of_int 2000) (List.init !n nat_of_int) t anc in (if check_static sc t anc && check_static2 sc t then "ok certified" else "ok uncertified") ^ (if flat_certified st then " flat" else "") ^ (if uniform_certified st then " uniform" else "") ^ (if init_before_untilb st then " ibu" else "") ^ (if check_bound t then " bound" else "") ^ (if pull_strictb st dt then " pull" else "") ^ (if push_strictb st dt then " push" else "") ^ ro
         | PrepScenarioError k -> Printf.sprintf "scenario_error %d" (int_of_nat k)
         | PrepCrash k -> Printf.sprintf "crash %d" (int_of_nat k)
         | PrepIncomparable -> "incomparable"
@@ -52,7 +64,9 @@ let build_cmd cmd tk = match cmd with
         | BScenarioError k -> Printf.sprintf "scenario_error %d" (int_of_nat k)
         | BCrash k -> Printf.sprintf "crash %d" (int_of_nat k)
         | BOk t ->
-            (match cycle_check (nat_of_int 5000) t.t_indel (List.init !n nat_of_int) with
+            let verdict = cycle_check (nat_of_int 5000) t.t_indel (List.init !n nat_of_int) in
+            let ro = roworder_cycle (nat_of_int 5000) (List.init !n nat_of_int) t.t_indel verdict in
+            (fun r -> r ^ ro) (match verdict with
              | CycAccepted -> "accepted" ^ (let d0 = gdepth sc_gt (group_of (nat_of_int 0)) in
                                             if wk_indel t.t_indel && uni_indel d0 t.t_indel && cov_indel t.t_indel (List.init !n nat_of_int) then " complete" else "")
              | CycRejected p -> "rejected " ^ String.concat " " (List.map (fun x -> string_of_int (int_of_nat x)) p)
